@@ -38,11 +38,79 @@ CTOR_TO_FUNC = {"frame_style": "centered"}
 def run(ctx):
     ctx.rule(geom_twin)
     ctx.rule(mirror_twin)
+    ctx.rule(port_reads_plain_fields)
     ctx.rule(nameflow)
     ctx.rule(reductions)
     ctx.rule(wrappers)
-    ctx.rule(port_reads_plain_fields)
     ctx.rule(no_ambient_settings)
+
+
+def port_filters_by_evaluation(ctx, R="R-C14-nameflow"):
+    """What from_stft_frame_computer hands to the torch module as (offset, filter) pairs, evaluated together with what the NumPy
+    constructor stored: for every DFT size 2..8, start bin s and run length T the pair list must be [(s, H)] - the bank's own
+    start bin and the whole response, in that order.  However the two classes agree to keep these values between them (two
+    parallel lists, one list of pairs, ...) is their business; a convention change made on one side only is not.  Evaluated by the
+    checker's interpreter (pdsa/walk.py); returns False when the code is outside its vocabulary."""
+    from .. import walk as W
+    from . import c02
+    prog = ctx.prog
+    fac = prog.func("torch.PyTorchShortTimeFourierTransformFrameComputer.from_stft_frame_computer")
+    comp = fac.params[1]
+    rets = [r for r in astq.returns_of(fac) if isinstance(r.value, ast.Call) and r.value.args]
+    if len(rets) != 1:
+        return False
+    first = rets[0].value.args[0]
+    expr = first
+    build = []
+    if isinstance(first, ast.Name):
+        # the statements that build the value handed over (an assignment, or a list filled in a loop)
+        build = [st for st in fac.node.body if st is not rets[0] and any(isinstance(x, ast.Name) and x.id == first.id for x in ast.walk(st))]
+        if not build:
+            return False
+    what = "the (offset, filter) pairs handed to the torch module are the bank's own start bins and whole truncated responses, in bank order"
+    ident = lambda interp, call: interp.ev(call.args[0])
+    n = 0
+    try:
+        for D in range(2, 9):
+            for s_ in range(D):
+                for T in (1, 2, D):
+                    n += 1
+                    try:
+                        fields, H = c02.constructor_state(prog, D, s_, T)
+                        env = {comp + k[len("self"):]: v for k, v in fields.items()}
+                        # a private field renamed inside compute.py got its reference name back there; this module reads the new name
+                        for mapping in (getattr(prog.module("compute"), "alpha_attr_renames", None) or {}).values():
+                            for new_, old_ in mapping.items():
+                                if "self." + old_ in fields:
+                                    env[comp + "." + new_] = fields["self." + old_]
+                        it = W.Interp(env, hooks={"tensor": ident, "as_tensor": ident, "from_numpy": ident, "asarray": ident, "array": ident})
+                        it.run(build)
+                        got = it.ev(expr)
+                    except W.ShapeError as e:
+                        ctx.bad(R, fac, rets[0], "for a DFT of %d bins and a filter starting at bin %d with %d value(s), evaluating the constructor and the "
+                                "conversion fails: %s" % (D, s_, T, e), what, robust=True)
+                        return True
+                    ok = isinstance(got, (list, tuple)) and len(got) == 1 and isinstance(got[0], (list, tuple)) and len(got[0]) == 2 \
+                        and got[0][0] == s_ and isinstance(got[0][1], W.Arr) and got[0][1].tags == H.tags
+
+                    def show(v):
+                        if isinstance(v, W.Arr):
+                            return "H[%s]" % ",".join(str(i) for _, i, _ in v.tags) if all(t[0] == "H" for t in v.tags) else "<array>"
+                        if isinstance(v, (list, tuple)):
+                            return "(" + ", ".join(show(x) for x in v) + ")"
+                        return repr(v)
+                    if not ok:
+                        ctx.bad(R, fac, rets[0], "for a DFT of %d bins and a filter whose response starts at bin %d with %d value(s) the torch module is handed %s ; "
+                                "its routine needs [(%d, H[0..%d])]: the start bin as the bank gave it, with the whole response (the NumPy constructor and "
+                                "this conversion no longer agree on what the stored fields mean)" % (D, s_, T, show(got), s_, T - 1), what, robust=True)
+                        return True
+    except W.Unsupported as e:
+        if n > 1:
+            ctx.error(R, "cannot decide the filter pairs by evaluation (%s after %d size combinations)" % (e, n))
+            return True
+        return False
+    ctx.ok(R, fac.loc(rets[0]), what, "%d combinations of DFT size, start bin and run length evaluated" % n)
+    return True
 
 
 def port_reads_plain_fields(ctx, R="R-C14-nameflow"):
@@ -51,6 +119,9 @@ def port_reads_plain_fields(ctx, R="R-C14-nameflow"):
     stores them in another convention (relative to the half spectrum, with a separate flag) can keep the NumPy result intact and
     silently break the port: what the constructor stores is a premise of this property and is re-established here."""
     from . import c02
+    if port_filters_by_evaluation(ctx, R):
+        ctx._port_filters_decided = True
+        return
     c02.filters_stored_whole(ctx, R)
 
 
@@ -217,6 +288,9 @@ def nameflow(ctx, R="R-C14-nameflow"):
         chs = echains(a)
         attrs = [".".join(c) for c in chs]
         meanings = {meaning(c) for c in chs} - {None}
+        if p == "offsets_and_truncated_filters" and getattr(ctx, "_port_filters_decided", False):
+            n_checked += 1
+            continue  # decided together with the constructor, by evaluation
         if p == "offsets_and_truncated_filters":
             ok = {c[0] for c in chs} >= {"_filt_start_idxs", "_truncated_filts"}
             ctx.check(ok, R, fac, rets[0], "filters and start bins come from the computer's truncated responses",
